@@ -504,6 +504,10 @@ def load_database(dbpath, rootdir):
     for command in db:
         # Skip commands that invoke unsupported tools.
         if not command.is_supported():
+            log.warning(
+                f"Ignoring unsupported command for '{command.filename}': "
+                + "the command is empty or does not compile a source file.",
+            )
             continue
 
         # Files may be specified:
